@@ -22,6 +22,7 @@ import (
 	"strings"
 	"sync"
 	"sync/atomic"
+	"time"
 )
 
 type opKind int
@@ -93,6 +94,26 @@ type Sched struct {
 	Trace    []string // executed actions with labels (diagnostics)
 	wg       sync.WaitGroup
 	pools    []*Pool
+	hung     bool
+}
+
+// StepTimeout bounds one step (the code between two scheduling points of one thread): such a step normally takes
+// microseconds; a step that does not end within this time is reported as a hang.
+var StepTimeout = 60 * time.Second
+
+// Hung is set once any step timed out: a goroutine is still running uncontrolled, so no further exploration is
+// sound in this process.
+var Hung bool
+
+// Hang is returned by Step when the thread did not reach a scheduling point within StepTimeout.
+type Hang struct {
+	Thread int
+	Name   string
+	After  string
+}
+
+func (h Hang) String() string {
+	return fmt.Sprintf("thread t%d(%s) did not reach another scheduling point (nor finish) within %v after %s", h.Thread, h.Name, StepTimeout, h.After)
 }
 
 var active atomic.Pointer[Sched]
@@ -112,6 +133,10 @@ func NewSched() *Sched {
 // scheduling point panics with a private sentinel that the thread wrapper
 // recovers) and the scheduler is deactivated.
 func (s *Sched) Close() {
+	if s.hung {
+		s.killed = true
+		return // a thread is stuck outside the scheduler's control: nothing to wait for
+	}
 	s.killed = true
 	for _, t := range s.threads {
 		if !t.done {
@@ -267,7 +292,16 @@ func (s *Sched) Step(a Action) (panicked interface{}) {
 		c = 0
 	}
 	t.wake <- c
-	ev := <-s.events
+	var ev event
+	select {
+	case ev = <-s.events:
+	case <-time.After(StepTimeout):
+		// the thread neither reached its next scheduling point nor finished: it is stuck inside code that has no
+		// point (e.g. an instruction that loops for ever). It cannot be stopped; the scheduler is unusable from here on.
+		s.hung = true
+		Hung = true
+		return Hang{Thread: t.id, Name: t.name, After: op.label}
+	}
 	s.running = nil
 	if ev.t != t {
 		panic(fmt.Sprintf("vsched: event from thread %d while thread %d was running", ev.t.id, t.id))
